@@ -114,7 +114,7 @@ theorem C14_trunc_split_independent (v : Variant) (k : Kind) (td : Bool) (hv : v
 `self.trunc_err`.  `variant` is regenerated from the source on every run.  (On the tree before the repairs
 `pending_fixes/C14-*.diff` this is false: TEBD had both, the time-dependent MPO/TDVP engines had none.) -/
 theorem C14_accounting_variant_current (k : Kind) (td : Bool) : variant.singleCount k td = true := by
-  cases k <;> cases td <;> decide
+  cases k <;> cases td <;> rfl
 
 /-- `C14_trunc_accounting` for the regenerated variant, no hypothesis left about the code -/
 theorem C14_trunc_accounting_current (k : Kind) (td : Bool) (e : Eng) (calls : List Call)
